@@ -96,6 +96,7 @@ class Ctx(object):
         self.loop_specs = run.loop_specs
         self.stubs = run.stubs
         self.ghost = {}
+        self.float_overflow_nondet = False   # E-FLOAT: int->float conversion in int*float may raise OverflowError
 
     # -- naming ------------------------------------------------------------
     def fresh_name(self, base):
@@ -485,10 +486,10 @@ class VC(object):
         obj = resolve(target) if isinstance(target, str) else target
         self.run.stubs[_fkey(obj)] = fn
 
-    def loop(self, func, ordinal, invariant, havoc=None, decreases=None):
+    def loop(self, func, ordinal, invariant, havoc=None, decreases=None, on_exit=None):
         from .interp import resolve
         obj = resolve(func) if isinstance(func, str) else func
-        self.run.loop_specs[(_fkey(obj), ordinal)] = (invariant, havoc, decreases)
+        self.run.loop_specs[(_fkey(obj), ordinal)] = (invariant, havoc, decreases, on_exit)
 
     # running real code
     def call(self, target, *args, **kwargs):
